@@ -141,7 +141,7 @@ def run_v15_decrypt(env, sh):
         env.check(sh.get('ctlen', k) != k, 'ValueError only for a ciphertext of the wrong length')
         return
     env.check(sh.get('ctlen', k) == k, 'a ciphertext of the wrong length is refused')
-    valid, result, _ = ref_pkcs1(env, em, b"", e)
+    valid, result, _ = ref_pkcs1(env, em, b"", e)      # (an expected length above k-11 matches no message)
     # message when the padding is valid, the caller's sentinel otherwise
     if K_is_bytes(sentinel) and len(sentinel) <= k:
         cases = []
@@ -202,7 +202,104 @@ def run_oaep_decrypt(env, sh):
                   'returned message == bytes after the 01 separator')
 
 
-HARNESSES = dict(v15_decrypt=Harness('v15_decrypt', run_v15_decrypt), oaep_decrypt=Harness('oaep_decrypt', run_oaep_decrypt),
+class _Exhausted(BaseException):
+    pass
+
+
+class _Tape(object):
+    def __init__(self, env, max_calls):
+        self.env, self.max_calls, self.draws = env, max_calls, []
+
+    def __call__(self, n):
+        if len(self.draws) >= self.max_calls:
+            raise _Exhausted()
+        b = self.env.bytes('rnd%d' % len(self.draws), int(n))
+        self.draws.append(b)
+        return b
+
+
+class StubPubKey(object):
+    def __init__(self, env, k, nbits=None):
+        self.env, self.k = env, k
+        self.n = (1 << (nbits or 8 * k)) - 1 - 2 * 3
+        self.seen = []
+
+    def size_in_bytes(self):
+        return self.k
+
+    def can_encrypt(self):
+        return True
+
+    def _encrypt(self, em_int):
+        self.seen.append(em_int)
+        return self.env.int('c', 8 * self.k - 1)        # some integer below the modulus
+
+
+def run_oaep_encrypt(env, sh):
+    import importlib
+    from Crypto.Cipher import PKCS1_OAEP
+    P = env.P
+    k, hname, mlen = sh['k'], sh['hash'], sh['mlen']
+    hmod = importlib.import_module("Crypto.Hash." + hname)
+    h = hmod.digest_size
+    msg = env.bytes('msg', mlen)
+    label = env.bytes('label', sh['llen'])
+    key = StubPubKey(env, k)
+    tape = _Tape(env, 1)
+    cipher = PKCS1_OAEP.new(key, hashAlgo=hmod, label=label, randfunc=tape)
+    try:
+        ct = cipher.encrypt(msg)
+    except ValueError:
+        env.check(mlen > k - 2 * h - 2, 'encrypt refuses only messages longer than k - 2hLen - 2')
+        return
+    env.check(mlen <= k - 2 * h - 2, 'messages longer than k - 2hLen - 2 are refused')
+    env.check(len(key.seen) == 1 and len(tape.draws) == 1 and len(tape.draws[0]) == h, 'one hLen-byte seed is drawn')
+    seed = tape.draws[0]
+    lhash = P.hash(hname, label, h)
+    db = P.concat(lhash, bytes(k - mlen - 2 * h - 2), b"\x01", msg)
+    mdb = P.xor(db, _mgf1(P, hname, h, seed, k - h - 1))
+    mseed = P.xor(seed, _mgf1(P, hname, h, mdb, h))
+    em = P.concat(b"\x00", mseed, mdb)
+    env.check(key.seen[0] == P.b2i(em), 'EM == 00 || maskedSeed || maskedDB per RFC 8017 7.1.1')
+    env.check(len(ct) == k, 'ciphertext has exactly k bytes')
+    # the receiver decodes that EM back to the message
+    rk = StubRsaKey(k, em)
+    back = PKCS1_OAEP.new(rk, hashAlgo=hmod, label=label).decrypt(ct)
+    env.check(back == msg, 'decrypt(encrypt(M)) == M')
+
+
+def run_v15_encrypt(env, sh):
+    from Crypto.Cipher import PKCS1_v1_5
+    P = env.P
+    k, mlen = sh['k'], sh['mlen']
+    msg = env.bytes('msg', mlen)
+    key = StubPubKey(env, k)
+    pslen = k - mlen - 3
+    tape = _Tape(env, max(0, pslen) + sh.get('retries', 1))
+    cipher = PKCS1_v1_5.new(key, randfunc=tape)
+    try:
+        ct = cipher.encrypt(msg)
+    except ValueError:
+        env.check(mlen > k - 11, 'encrypt refuses only messages longer than k - 11')
+        return
+    except _Exhausted:
+        env.check(True, 'more zero bytes drawn than the bound: path cut')
+        return
+    env.check(mlen <= k - 11, 'messages longer than k - 11 are refused')
+    em = P.i2b(key.seen[0], k)
+    valid, result, _ = ref_pkcs1(env, em, b"", 0)
+    env.check(valid, 'EM is a well-formed 00 02 PS 00 M block (PS non-zero, at least 8 bytes)')
+    env.check(em[k - mlen:] == msg if mlen else True, 'M is the tail of EM')
+    env.check(em[k - mlen - 1] == 0, 'separator directly in front of M')
+    used = [d for d in tape.draws]
+    env.check(all(len(d) == 1 for d in used), 'padding bytes are drawn one at a time')
+    env.check(len(ct) == k, 'ciphertext has exactly k bytes')
+    back = PKCS1_v1_5.new(StubRsaKey(k, em)).decrypt(ct, b"S")
+    env.check(back == msg, 'decrypt(encrypt(M)) == M')
+
+
+HARNESSES = dict(oaep_encrypt=Harness('oaep_encrypt', run_oaep_encrypt), v15_encrypt=Harness('v15_encrypt', run_v15_encrypt, max_paths=20000),
+                 v15_decrypt=Harness('v15_decrypt', run_v15_decrypt), oaep_decrypt=Harness('oaep_decrypt', run_oaep_decrypt),
                  pkcs1_decode=Harness('pkcs1_decode', run_pkcs1_decode), oaep_decode=Harness('oaep_decode', run_oaep_decode))
 
 
@@ -222,6 +319,12 @@ def shapes(tier):
                 jobs.append(('pkcs1_decode', dict(k=k, slen=s, expected=e)))
     for k, s, e in ((11, 0, 0), (12, 13, 0), (12, 0, 2), (10, 0, 0)):
         jobs.append(('pkcs1_decode', dict(k=k, slen=s, expected=e)))
+    # positions are compared byte-wise over sizeof(size_t): sizes beyond 256 (and 512 in thorough)
+    for k in ((266, 267, 300, 522, 523) if th else (266, 267)):
+        jobs.append(('pkcs1_decode', dict(k=k, slen=0, expected=0)))
+        jobs.append(('pkcs1_decode', dict(k=k, slen=1, expected=k - 11 - 255)))
+    for h, k in (((4, 266), (8, 275), (4, 522)) if th else ((4, 266),)):
+        jobs.append(('oaep_decode', dict(k=k, hlen=h)))
     for h in (4, 8) if not th else (1, 4, 8, 20):
         for k in (range(2 * h + 2, 41) if th else (2 * h + 2, 2 * h + 3, 2 * h + 10, 40)):
             jobs.append(('oaep_decode', dict(k=k, hlen=h)))
@@ -229,7 +332,7 @@ def shapes(tier):
         jobs.append(('oaep_decode', dict(k=2 * h + 4, hlen=h, dblen=h + 2)))
     for k in ((12, 13, 16, 24, 32, 40) if th else (12, 16, 24)):
         for sent in ('0', '1', str(k), str(k + 1), 'none', 'obj'):
-            for e in ((0, 1, k - 11) if th else (0, k - 11)):
+            for e in ((0, 1, k - 11, k - 10, k) if th else (0, k - 11, k - 10)):
                 jobs.append(('v15_decrypt', dict(k=k, sentinel=sent, expected=e)))
         jobs.append(('v15_decrypt', dict(k=k, sentinel='0', expected=0, ctlen=k - 1)))
         jobs.append(('v15_decrypt', dict(k=k, sentinel='0', expected=0, ctlen=k + 1)))
@@ -239,6 +342,15 @@ def shapes(tier):
                 jobs.append(('oaep_decrypt', dict(k=k, hash=hname, llen=ll)))
         jobs.append(('oaep_decrypt', dict(k=2 * h + 4, hash=hname, llen=0, ctlen=2 * h + 3)))
         jobs.append(('oaep_decrypt', dict(k=2 * h + 1, hash=hname, llen=0)))
+        for k in ((2 * h + 2, 2 * h + 3, 2 * h + 12) if th else (2 * h + 2, 2 * h + 5)):
+            mx = k - 2 * h - 2
+            for m in sorted(set([0, 1, mx - 1, mx, mx + 1])):
+                if m >= 0:
+                    jobs.append(('oaep_encrypt', dict(k=k, hash=hname, mlen=m, llen=0 if m else 2)))
+    for k in ((12, 13, 16, 24) if th else (12, 16)):
+        for m in sorted(set([0, 1, k - 12, k - 11, k - 10])):
+            if m >= 0:
+                jobs.append(('v15_encrypt', dict(k=k, mlen=m)))
     return jobs
 
 
